@@ -167,9 +167,14 @@ def _stats_object(h, dist, nstd, have):
     for key in have:
         if "(" in key:
             name, arg = key[:-1].split("(")
-            out[key] = np.asarray(sut(getattr(h, name), float(arg), dist, what=f"{name}({arg}, {dist})"), dtype=float)
+            raw = sut(getattr(h, name), float(arg), dist, what=f"{name}({arg}, {dist})")
         else:
-            out[key] = np.asarray(sut(getattr(h, key), dist, what=f"{key}({dist})"), dtype=float)
+            raw = sut(getattr(h, key), dist, what=f"{key}({dist})")
+        out[key] = np.array(raw, dtype=float, copy=True)
+        # a returned array belongs to the caller (e.g. normalised in place for a plot): scribbling on it must not
+        # change what the object answers later
+        if isinstance(raw, np.ndarray) and raw.ndim >= 1 and raw.flags.writeable:
+            raw[...] = -7.0
     return out
 
 
